@@ -289,7 +289,15 @@ def gen_session(rng, tier, si):
                       "filtervalue": rng.randint(1, 9)}
         if op == "delete_terminal":
             params = {"num": rng.randint(1, len(s["tokens"]))}
-        calls.append({"sent": s, "op": op, "params": params, "shuffle": rng.randrange(1 << 30)})
+        call = {"sent": s, "op": op, "params": params, "shuffle": rng.randrange(1 << 30)}
+        if rng.random() < 0.3:
+            call["via_export"] = True          # the tree comes from the export reader
+        if op in ("punctuation_delete", "ptb_delete_traces", "insert_terminals",
+                  "delete_terminal") and rng.random() < 0.3 and "slash" not in params:
+            n = len(s["tokens"])
+            call["then_filter"] = {"filteroperator": rng.choice(["lt", "gt", "eq"]),
+                                   "filtervalue": rng.choice([n, n - 1, max(1, n - 2), n + 1])}
+        calls.append(call)
     return {"calls": calls, "files": files}
 
 
@@ -310,12 +318,23 @@ def build_spec(sc):
         for p, f in s["files"].items():
             files[p] = f["text"].encode("utf-8")
         ops = []
-        for c in s["calls"]:
-            ops.append(["build", "t", c["sent"], c["shuffle"]])
+        for j, c in enumerate(s["calls"]):
+            if c.get("via_export"):
+                path = "/sim/w/s%d_c%d.export" % (i, j)
+                files[path] = cm.render_file({"tb": [c["sent"]], "codec": "export4",
+                                              "layout": c["shuffle"], "enc": "utf-8"})
+                ops.append(["reader", "rd", "export", path, "utf-8", {"quiet": True}])
+                ops.append(["next", "rd", "t"])
+            else:
+                ops.append(["build", "t", c["sent"], c["shuffle"]])
             if c["op"] == "delete_terminal":
                 ops.append(["call", "delete_terminal", "t", c["params"]["num"]])
+                if c.get("then_filter"):
+                    ops.append(["trans", "t", "filter_by_length", c["then_filter"], "r2"])
             else:
                 ops.append(["trans", "t", c["op"], c["params"], "r"])
+                if c.get("then_filter"):
+                    ops.append(["trans", "r", "filter_by_length", c["then_filter"], "r2"])
         sessions.append({"id": "s%d" % i, "ops": ops, "on_error": "continue"})
     return {"files": files, "sessions": sessions, "schedule": sc.get("schedule", []),
             "io_seed": sc["io_seed"]}
@@ -415,9 +434,45 @@ def judge_call(c, files, rec, st):
     return None
 
 
+def judge_follow(c, files, rec, st):
+    """filter_by_length applied to the tree an edit has just changed: the length that counts is
+    the length after the edit."""
+    op, params, sent = c["op"], c["params"], c["sent"]
+    if op == "punctuation_delete":
+        exp, _ = ref_punctuation_delete(sent)
+    elif op == "ptb_delete_traces":
+        exp = ref_delete_traces(sent, params)
+    elif op == "insert_terminals":
+        table = parse_tfile(files[params["terminalfile"]]["text"], True)
+        if table in ("DUP", "BAD"):
+            return None
+        exp = ref_insert(sent, table)
+    elif op == "delete_terminal":
+        exp = prune(sent, [params["num"]])
+    else:
+        return None
+    if exp is None:
+        return None
+    st.probe("filter_after_length_changing_edit")
+    if c.get("via_export"):
+        st.probe("edited_tree_came_from_export_reader")
+    want = ref_filter(exp, c["then_filter"])
+    if "exc" in rec:
+        return cm.viol("C11/filter_by_length/after-%s/raised/%s" % (op, rec["exc"]),
+                       params=c["then_filter"])
+    dropped = rec["ok"] is None
+    if dropped != (want is None):
+        return cm.viol("C11/filter_by_length/after-%s/wrong-decision" % op,
+                       params=c["then_filter"], length_after_edit=len(exp["tokens"]),
+                       length_before=len(sent["tokens"]), dropped=dropped,
+                       via_export=bool(c.get("via_export")))
+    return None
+
+
 def execute(sc, sim):
     st = cm.Stats()
-    st.declare("warm_cache_same_file", "cache_switch_to_other_file", "call_after_failed_load",
+    st.declare("filter_after_length_changing_edit", "edited_tree_came_from_export_reader",
+               "warm_cache_same_file", "cache_switch_to_other_file", "call_after_failed_load",
                "failed_terminal_file_load", "out_of_range_or_index0_request",
                "other_sentence_ids_only", "punctuation_only_sentence", "keep_with_keepcoindex",
                "tree_filtered_out", "two_sessions_interleaved")
@@ -430,10 +485,20 @@ def execute(sc, sim):
     if len(sc["sessions"]) >= 2 and st.d["faults"].get("interleave"):
         st.probe("two_sessions_interleaved")
     for i, s in enumerate(sc["sessions"]):
-        recs = [r for r in obs["sessions"].get("s%d" % i, []) if r["op"] in ("trans", "call")]
+        allrecs = [r for r in obs["sessions"].get("s%d" % i, []) if r["op"] in ("trans", "call")]
+        recs, follow = [], []
+        k_ = 0
+        for c in s["calls"]:
+            recs.append(allrecs[k_] if k_ < len(allrecs) else {"op": "trans", "exc": "Missing"})
+            k_ += 1
+            if c.get("then_filter"):
+                follow.append(allrecs[k_] if k_ < len(allrecs) else None)
+                k_ += 1
+            else:
+                follow.append(None)
         last = {}
         failed = {}
-        for c, rec in zip(s["calls"], recs):
+        for ci, (c, rec) in enumerate(zip(s["calls"], recs)):
             if "terminalfile" in c["params"]:
                 fam = c["op"]
                 f = c["params"]["terminalfile"]
@@ -447,6 +512,8 @@ def execute(sc, sim):
                 last[fam] = f
                 failed[fam] = "exc" in rec
             v = judge_call(c, s["files"], rec, st)
+            if not v and follow[ci] is not None and "exc" not in rec:
+                v = judge_follow(c, s["files"], follow[ci], st)
             if v:
                 v["detail"]["session"] = i
                 v["detail"]["call"] = s["calls"].index(c)
@@ -491,6 +558,11 @@ def shrink_candidates(sc):
                 c["sessions"][i]["files"][p]["text"] = "\n".join(rest) + ("\n" if rest else "")
                 yield c
         for j, call in enumerate(s["calls"]):
+            for flag in ("via_export", "then_filter"):
+                if call.get(flag):
+                    c = model.clone(sc)
+                    del c["sessions"][i]["calls"][j][flag]
+                    yield c
             for key in sorted(call["params"]):
                 if key in ("terminalfile", "filteroperator", "filtervalue", "num"):
                     continue
